@@ -38,7 +38,19 @@ Mix(i) ==
           body |-> << Decl(ta, "a", Rss), Decl(tb, "b", Rtt), Decl(tc, "c", Ruu) >> \o stmts ]
 
 NProg == IF Tier = "thorough" THEN 2000 ELSE 240
-Programs == [i \in 1..NProg |-> Mix(i)]
+\* postfix ++ / -- on a local of every integer type: as a used value, as an unused statement and as the step of a loop
+\* (INC / DEC must work in the width of the variable)
+PostProgs ==
+    Flatten([i \in 1..8 |->
+        LET t == T8[i] K == Var("k") nm == ToString(i) IN
+        << [ id |-> "pf-use-" \o nm, tags |-> <<"postfix", "use">>, fam |-> "std",
+             body |-> << Decl(t, "k", Rss), Decl(T8[((i + 2) % 8) + 1], "r", Postfix("++", K)), Set(Rdd, Bin("+", K, Var("r"))) >> ],
+           [ id |-> "pf-dec-" \o nm, tags |-> <<"postfix", "dec">>, fam |-> "std",
+             body |-> << Decl(t, "k", Rss), Decl(S64, "r", Postfix("--", K)), Set(Rdd, Bin("+", K, Var("r"))) >> ],
+           [ id |-> "pf-step-" \o nm, tags |-> <<"postfix", "step">>, fam |-> "std",
+             body |-> << Decl(t, "k", NumN(0)), Decl(S64, "r", NumN(0)),
+                         For(Set(K, NumN(0)), Bin("<", K, NumN(3)), Postfix("++", K), << ExprS(Assign(Var("r"), "+=", K)) >>), Set(Rdd, Var("r")) >> ] >>])
+Programs == [i \in 1..NProg |-> Mix(i)] \o PostProgs
 
 VARIABLE x
 Init == x = JsonSerialize(IOEnv.GEN_OUT, Programs)
